@@ -5,6 +5,7 @@ import (
 	"go/constant"
 	"go/token"
 	"go/types"
+	"os"
 	"reflect"
 	"sort"
 	"strconv"
@@ -432,7 +433,7 @@ func (w *schemaWalker) walkSchema() {
 // ---------------------------------------------------------------------------
 
 func checkC04(c *Ctx, r *Report) {
-	r.Explanation = "Shape of the encoder decided for every schema type, plus panic freedom and three value clauses: (R1) the kind case list, special types and struct conventions are extracted from makeField's SSA; (R2) every named type of cdr/cdrType is walked exactly as the reflection walk does and every node must be something the encoder handles (non-empty structs, optional members of nillable kind, integer Present, leaf kinds in the extracted case list, strings reached through a context tag) - exhaustive over the schema; (R3) every reflect Field/Index argument in makeField is within range on its path (relational analysis), in particular the CHOICE selector; (R4) the first content octet of a BIT STRING is within 0..7 for every bit length (interval analysis); (R5) BOOLEAN contents are the constants 0xFF / 0x00 on the true / false edge; (R6) errors of the recursive calls are returned, not swallowed, and unsupported constructs return an error."
+	r.Explanation = "Shape of the encoder decided for every schema type, plus panic freedom and three value clauses: (R1) the kind case list, special types and struct conventions are extracted from makeField's SSA; (R2) every named type of cdr/cdrType is walked exactly as the reflection walk does and every node must be something the encoder handles (non-empty structs, optional members of nillable kind, integer Present, leaf kinds in the extracted case list, strings reached through a context tag) - exhaustive over the schema; (R3) every reflect Field/Index argument in makeField is within range on its path (relational analysis), in particular the CHOICE selector; (R4) the first content octet of a BIT STRING is within 0..7 for every bit length (interval analysis); (R5) BOOLEAN contents are the constants 0xFF / 0x00 on the true / false edge; (R6) errors of the recursive calls are returned, not swallowed, and unsupported constructs return an error; (R7) on every path of makeField that reaches a use of the content encoder one has been stored (definite assignment; the no-match exit of the kind switch is R2's obligation), so e.g. a SEQUENCE whose OPTIONAL members are all absent is encoded, not a nil-interface panic."
 	r.Undecided = []string{"minimal two's-complement INTEGER octets", "identifier/length octet arithmetic of appendTagAndLen", "children lengths summing to the parent length", "byte equality with an independent encoder (all value-level: no rule is offered)"}
 	r.Exhaustive = true
 	r.rule("C04.R1", "codec facts extracted from makeField", 3)
@@ -441,6 +442,8 @@ func checkC04(c *Ctx, r *Report) {
 	r.rule("C04.R4", "BIT STRING unused-bit count within 0..7", 1)
 	r.rule("C04.R5", "BOOLEAN contents 0xFF / 0x00", 2)
 	r.rule("C04.R6", "errors are returned: recursive calls, unsupported constructs, top level", 4)
+	r.rule("C04.R7", "the content encoder is stored on every path that uses it (no nil-interface call)", 2)
+	r.rule("C04.R8", "the encoding depends on the value, its type and the parameters only: no mutable package-level state on the encode path (memo tables keyed by reflect.Type identity excepted)", 8)
 
 	w := newSchemaWalker(c, r, false)
 	w.ruleEnc = "C04.R2"
@@ -461,6 +464,8 @@ func checkC04(c *Ctx, r *Report) {
 
 	// ---- R3 reflect index safety
 	c04ReflectIndex(c, r, mk, "C04.R3")
+	c04ContentAssigned(c, r, mk, "C04.R7")
+	codecPurity(c, r, []*ssa.Function{c.fn("cdr/asn", "BerMarshalWithParams"), c.fn("cdr/asn", "BerMarshal")}, modPath+"/cdr/asn", "C04.R8", "encode")
 
 	// ---- R4 bit string
 	{
@@ -567,6 +572,15 @@ func c04ReflectIndex(c *Ctx, r *Report, f *ssa.Function, rule string) {
 		}
 		return base(v)
 	}
+	// evaluate every reflect size call first, so that the set of size atoms does
+	// not depend on the order in which index sites are visited
+	eachInstr(f, func(_ *ssa.BasicBlock, _ int, ins ssa.Instruction) {
+		if call, ok := ins.(*ssa.Call); ok {
+			if obj := calleeObj(&call.Call); obj != nil && obj.Pkg() != nil && obj.Pkg().Path() == "reflect" && (obj.Name() == "NumField" || obj.Name() == "Len") {
+				e.fe.eval(call)
+			}
+		}
+	})
 	cnt := map[string]int{}
 	eachInstr(f, func(_ *ssa.BasicBlock, _ int, ins ssa.Instruction) {
 		call, ok := ins.(*ssa.Call)
@@ -734,6 +748,7 @@ func checkC05(c *Ctx, r *Report) {
 	r.rule("C05.R2", "every schema type is decodable: members and alternatives tagged, tags unique, leaf kinds handled (exhaustive)", 190)
 	r.rule("C05.R3", "unsupported constructs return an error in both halves", 2)
 	r.rule("C05.R4", "decoder stores values of the right type (reflect Set assignability)", 3)
+	r.rule("C05.R6", "decoding depends on the bytes, the target type and the parameters only: no mutable package-level state on the decode path (memo tables keyed by reflect.Type identity excepted)", 6)
 	r.rule("C05.R5", "the decoder's header parser yields an offset within the input and a non-negative content length (post-conditions proved; shared with C16.R1)", 5)
 
 	w := newSchemaWalker(c, r, true)
@@ -748,7 +763,10 @@ func checkC05(c *Ctx, r *Report) {
 	r.check(kindSetString(encK) == kindSetString(w.dec.kinds), "C05.R1", "kinds", c.rel(pf.Pos()), "both handle "+kindSetString(w.dec.kinds), "the encoder handles kinds {"+kindSetString(encK)+"} but the decoder {"+kindSetString(w.dec.kinds)+"}: values of the difference encode but do not decode (or vice versa)")
 	r.check(strings.Join(sortedKeysB(w.enc.specials), ",") == strings.Join(sortedKeysB(w.dec.specials), ","), "C05.R1", "special types", c.rel(pf.Pos()), "both handle "+strings.Join(sortedKeysB(w.dec.specials), ","), "the special types handled differ: encoder {"+strings.Join(sortedKeysB(w.enc.specials), ",")+"} decoder {"+strings.Join(sortedKeysB(w.dec.specials), ",")+"}")
 	r.check(strings.Join(sortedKeysB(w.enc.convNames), ",") == strings.Join(sortedKeysB(w.dec.convNames), ","), "C05.R1", "struct conventions", c.rel(pf.Pos()), "both use "+strings.Join(sortedKeysB(w.dec.convNames), ","), "struct conventions differ: encoder {"+strings.Join(sortedKeysB(w.enc.convNames), ",")+"} decoder {"+strings.Join(sortedKeysB(w.dec.convNames), ",")+"}")
-	r.check(w.enc.usesParse && w.dec.usesParse, "C05.R1", "tag language", c.rel(pf.Pos()), "both read member tags with parseFieldParameters", "the two halves do not read the `ber:` tags with the same parser")
+	pfp := c.fn("cdr/asn", "parseFieldParameters")
+	encReach, _ := c.reach([]*ssa.Function{c.fn("cdr/asn", "makeField")})
+	decReach, _ := c.reach([]*ssa.Function{c.fn("cdr/asn", "ParseField")})
+	r.check(encReach[pfp] && decReach[pfp], "C05.R1", "tag language", c.rel(pf.Pos()), "both read member tags with parseFieldParameters", "the two halves do not read the `ber:` tags with the same parser")
 	r.check(w.enc.elemCallFound && w.dec.elemCallFound && w.enc.elemTagCleared == w.dec.elemTagCleared, "C05.R1", "list element parameters", c.rel(pf.Pos()),
 		fmt.Sprintf("both process list elements with tagNumber cleared=%v", w.enc.elemTagCleared),
 		fmt.Sprintf("the encoder processes list elements with the list's tag cleared=%v, the decoder with cleared=%v: for a tagged list of CHOICE values the decoder treats each element as an embedded CHOICE and parses a second header out of its contents", w.enc.elemTagCleared, w.dec.elemTagCleared))
@@ -761,6 +779,7 @@ func checkC05(c *Ctx, r *Report) {
 	c04ErrorPropagationOID(c, r, pf, "C05.R3")
 	c16ReflectSetRule(c, r, "C05.R4")
 	c16Posts(c, r, "C05.R5")
+	codecPurity(c, r, []*ssa.Function{c.fn("cdr/asn", "UnmarshalWithParams"), c.fn("cdr/asn", "Unmarshal")}, modPath+"/cdr/asn", "C05.R6", "decode")
 }
 
 func c04ErrorPropagationOID(c *Ctx, r *Report, f *ssa.Function, rule string) {
@@ -782,3 +801,187 @@ func c16ReflectSetRule(c *Ctx, r *Report, rule string) {
 }
 
 var _ = constant.Int
+
+// ---- C04.R7: the content encoder is assigned on every path that uses it ----
+//
+// makeField builds a local berTypeEncoder and, after the type / kind switches,
+// calls berType.value.Len(): a path that reaches that use without having stored
+// a content encoder calls a method on a nil interface and panics.  Forward
+// must-dataflow over the CFG (state: "value stored on every path so far").
+// The one path excluded is the no-match exit of the kind switch: it is what
+// C04.R1/R2 cover (every schema leaf kind has a case).
+func c04ContentAssigned(c *Ctx, r *Report, f *ssa.Function, rule string) {
+	var enc *ssa.Alloc
+	fieldIdx := -1
+	for _, b := range f.Blocks {
+		for _, ins := range b.Instrs {
+			if a, ok := ins.(*ssa.Alloc); ok {
+				if n, ok := a.Type().(*types.Pointer).Elem().(*types.Named); ok && n.Obj().Name() == "berTypeEncoder" {
+					if st, ok := n.Underlying().(*types.Struct); ok {
+						for i := 0; i < st.NumFields(); i++ {
+							if st.Field(i).Name() == "value" && enc == nil && hasFieldStore(a, i) {
+								enc, fieldIdx = a, i
+							}
+						}
+					}
+				}
+			}
+		}
+	}
+	if enc == nil {
+		r.viol(rule, fnKey(f)+"|anchor", c.rel(f.Pos()), "the local encoder value (berTypeEncoder with a value member) was not found in "+f.Name())
+		return
+	}
+	isValueAddr := func(v ssa.Value) bool {
+		fa, ok := v.(*ssa.FieldAddr)
+		return ok && fa.X == ssa.Value(enc) && fa.Field == fieldIdx
+	}
+	isKindCmp := func(b *ssa.BasicBlock) bool {
+		if len(b.Instrs) == 0 {
+			return false
+		}
+		iff, ok := b.Instrs[len(b.Instrs)-1].(*ssa.If)
+		if !ok {
+			return false
+		}
+		bo, ok := iff.Cond.(*ssa.BinOp)
+		if !ok || bo.Op != token.EQL {
+			return false
+		}
+		for _, op := range []ssa.Value{bo.X, bo.Y} {
+			if call, ok := op.(*ssa.Call); ok {
+				if obj := calleeObj(&call.Call); obj != nil && obj.Name() == "Kind" && obj.Pkg() != nil && obj.Pkg().Path() == "reflect" {
+					return true
+				}
+			}
+		}
+		return false
+	}
+	usesValue := func(b *ssa.BasicBlock) bool {
+		for _, ins := range b.Instrs {
+			if ld, ok := ins.(*ssa.UnOp); ok && ld.Op == token.MUL && (ld.X == ssa.Value(enc) || isValueAddr(ld.X)) {
+				return true
+			}
+		}
+		return false
+	}
+	const (
+		unreached = 0
+		assigned  = 1
+		unset     = 2
+	)
+	in := make([]int, len(f.Blocks))
+	out := make([]int, len(f.Blocks))
+	in[0] = unset
+	changed := true
+	transfer := func(b *ssa.BasicBlock, st int) int {
+		for _, ins := range b.Instrs {
+			if s, ok := ins.(*ssa.Store); ok && isValueAddr(s.Addr) {
+				st = assigned
+			}
+		}
+		return st
+	}
+	for changed {
+		changed = false
+		for _, b := range f.Blocks {
+			st := in[b.Index]
+			if b.Index != 0 {
+				st = unreached
+				for _, p := range b.Preds {
+					ps := out[p.Index]
+					if ps == unreached {
+						continue
+					}
+					// the no-match exit of the kind switch is covered by R1/R2
+					if isKindCmp(p) && len(p.Succs) == 2 && p.Succs[1] == b && !isKindCmp(b) && usesValue(b) {
+						ps = assigned
+					}
+					if ps == unset || st == unset {
+						st = unset
+					} else {
+						st = assigned
+					}
+				}
+			}
+			o := st
+			if st != unreached {
+				o = transfer(b, st)
+			}
+			if st != in[b.Index] || o != out[b.Index] {
+				in[b.Index], out[b.Index] = st, o
+				changed = true
+			}
+		}
+	}
+	n := 0
+	if os.Getenv("CHFCHECK_DEBUG") != "" {
+		for _, b := range f.Blocks {
+			fmt.Fprintf(os.Stderr, "blk %d %s in=%d out=%d kindcmp=%v\n", b.Index, b.Comment, in[b.Index], out[b.Index], isKindCmp(b))
+		}
+	}
+	for _, b := range f.Blocks {
+		st := in[b.Index]
+		if st == unreached {
+			continue
+		}
+		for _, ins := range b.Instrs {
+			if s, ok := ins.(*ssa.Store); ok && isValueAddr(s.Addr) {
+				st = assigned
+			}
+			ld, ok := ins.(*ssa.UnOp)
+			if !ok || ld.Op != token.MUL {
+				continue
+			}
+			whole := ld.X == ssa.Value(enc)
+			if !whole && !isValueAddr(ld.X) {
+				continue
+			}
+			n++
+			key := fmt.Sprintf("%s|use of the content encoder#%d", fnKey(f), n)
+			// which predecessor paths arrive unset (for the diagnosis)
+			why := ""
+			if st == unset {
+				d := b
+				for d != nil && len(d.Preds) < 2 {
+					d = d.Idom()
+				}
+				if d != nil {
+					var ps []string
+					for _, p := range d.Preds {
+						if out[p.Index] == unset && !(isKindCmp(p) && len(p.Succs) == 2 && p.Succs[1] == d && usesValue(d)) {
+							ps = append(ps, p.Comment+" block at "+c.rel(blockPos(p)))
+						}
+					}
+					sort.Strings(ps)
+					if len(ps) > 0 {
+						why = " (arriving from the " + strings.Join(ps, ", ") + ")"
+					}
+				}
+			}
+			r.check(st == assigned, rule, key, posOf(c, ld), "a content encoder has been stored on every path reaching this use", "a path reaches this use of berType.value without any content encoder having been stored"+why+": the method call on the nil interface panics (e.g. a SEQUENCE whose members are all OPTIONAL and absent)")
+		}
+	}
+}
+
+func blockPos(b *ssa.BasicBlock) token.Pos {
+	for _, ins := range b.Instrs {
+		if ins.Pos().IsValid() {
+			return ins.Pos()
+		}
+	}
+	return token.NoPos
+}
+
+func hasFieldStore(a *ssa.Alloc, field int) bool {
+	for _, ref := range *a.Referrers() {
+		if fa, ok := ref.(*ssa.FieldAddr); ok && fa.Field == field {
+			for _, r2 := range *fa.Referrers() {
+				if st, ok := r2.(*ssa.Store); ok && st.Addr == ssa.Value(fa) {
+					return true
+				}
+			}
+		}
+	}
+	return false
+}
